@@ -367,7 +367,7 @@ FIXED_HELPER = [
 
 def check_helpers(ctx):
     r = ctx.fork("helpers")
-    n = ctx.budget(1500, 40000)
+    n = ctx.budget(4000, 60000)
     cases = list(FIXED_HELPER)
     for i in range(n):
         cases.append(gen_helper_case(r) if r.chance(0.7) else gen_norm_case(r))
@@ -722,8 +722,8 @@ FIXED_E2E = [
 
 def check_e2e(ctx):
     r = ctx.fork("e2e")
-    per_tool = ctx.budget(14, 150)
-    per_model = ctx.budget(6, 60)
+    per_tool = ctx.budget(40, 400)
+    per_model = ctx.budget(16, 150)
     cases = list(FIXED_E2E)
     for name in TOOLS:
         for _ in range(per_tool):
